@@ -105,3 +105,31 @@ def sim_worker(path):
     states = tlaval.sim_states(path, last_only=False)
     f, script = replay_behaviour(states)
     return {"findings": f, "script": script, "init": states[0]["par"] if states else None}
+
+
+def boundary_probes():
+    """values a hair outside a bound (1 ulp .. 1e-9 relative) are outside: the update must be refused and the value stay within its bounds
+    (LwParams decides the integer lattice; this is the same rule at floating-point resolution). Returns [(clause, detail)]."""
+    import math
+    out = []
+    for lo, hi in ((0.5, 2.0), (math.pi / 4, 2 * math.pi), (-3.0, -1.0), (1e-3, 1e3)):
+        for rel in (2.3e-16, 1e-12, 5e-10, 1e-9):
+            for side in ("above", "below"):
+                p = lw.Parameter((lo + hi) / 2, bounds=[lo, hi])
+                v = hi + abs(hi) * rel if side == "above" else lo - abs(lo) * rel
+                if lo <= v <= hi:
+                    continue
+                pd = lw.ParameterDict()
+                pd["a"] = p
+                for how, call in (("Parameter.set", lambda: p.set(v)), ("ParameterDict assignment", lambda: pd.__setitem__("a", v))):
+                    try:
+                        call()
+                        accepted = True
+                    except Exception:  # noqa: BLE001
+                        accepted = False
+                    got = p.get()
+                    if accepted or not (lo <= got <= hi):
+                        out.append(("rejected_update_accepted" if accepted else "out_of_bounds",
+                                    "%s(%r) on a parameter bounded to [%r, %r]: %s; value now %r" % (how, v, lo, hi, "accepted" if accepted else "refused but changed", got)))
+                        break
+    return out
